@@ -82,6 +82,25 @@ fn scenario<E: Ep>(
                 format!("{} of {} vital chunks arrived after the loss", got.len(), accepted.len()),
             ));
         }
+        // progress also means that the sender learns about it: once the acknowledgement has
+        // travelled back nothing stays queued for retransmission
+        let mut drained = false;
+        for _ in 0..8 {
+            p.settle();
+            let q = p.ep[0].view(p.now).online.as_ref().map(|o| o.resend_queue.len()).unwrap_or(0);
+            if q == 0 {
+                drained = true;
+                break;
+            }
+            p.advance(500_000);
+            p.tick_due();
+        }
+        if !drained {
+            return Err((
+                "c02:delivered-chunks-stay-queued".into(),
+                format!("all {} chunks arrived, but the sender still keeps chunks queued for retransmission after 4 more seconds of fair network", accepted.len()),
+            ));
+        }
         Ok("recovered")
     });
     match r {
@@ -107,6 +126,12 @@ fn sweep(run: &Arc<Run>, variant: Variant) {
         }
         cases.push((vec![a], true));
     }
+    // backlogs: n small vital chunks whose first transmission is lost altogether, on both sides of
+    // the 8-bit chunk counter, of half the sequence space (512) and close to all of it
+    for n in [100usize, 255, 256, 300, 510, 511, 512, 513, 600, 1000, 1022] {
+        cases.push((vec![1; n], false));
+        cases.push((vec![1; n], true));
+    }
     for (lens, by_request) in cases {
         run.add_evals(1);
         let r = match variant {
@@ -116,10 +141,10 @@ fn sweep(run: &Arc<Run>, variant: Variant) {
         match r {
             Ok(class) => run.class(
                 &format!("sweep:{}:{}:{}:{}", variant.name(), class, lens.len(), by_request),
-                || json!({"lens": lens, "by_request": by_request}),
+                || json!({"lens": if lens.len() > 8 { json!(format!("{} x {}", lens.len(), lens[0])) } else { json!(lens) }, "by_request": by_request}),
             ),
             Err((sig, detail)) => {
-                run.violation(&sig, &detail, json!({"sweep": "resend", "variant": variant.name(), "lens": lens, "by_request": by_request}));
+                run.violation(&sig, &detail, json!({"sweep": "resend", "variant": variant.name(), "lens": if lens.len() > 8 { json!(format!("{} x {}", lens.len(), lens[0])) } else { json!(lens) }, "by_request": by_request}));
             }
         }
     }
